@@ -236,6 +236,11 @@ def _check_uri(plan):
     want = [(h, p) for h, p in u['eps']]
     if got != want:
       raise Violation(ID, 'uri-tcp-endpoints', '%r parsed to %r' % (uri, got))
+    for again in (2, 3):
+      prov.Initialize(None, None)
+      got_n = [(s.service_endpoint.host, s.service_endpoint.port) for s in prov.GetServers()]
+      if got_n != want:
+        raise Violation(ID, 'uri-tcp-endpoints', '%r: read no. %d of the provider gave %r' % (uri, again, got_n))
     for host, port in got:
       if not isinstance(port, int):
         raise Violation(ID, 'uri-tcp-endpoints', 'port %r is not an int' % (port,))
